@@ -108,6 +108,11 @@ def _values(rng, n, depth_bits, dtype=None):
     v = rng.integers(0, hi, size=n)
     if n >= 2:
         v[0], v[1] = 0, hi - 1
+    if depth_bits == 32 and dtype in ("int64", "float32", "float64"):
+        # 32-bit files hold single-precision floats: negative values (and, from floating-point arrays, eighths) are representable samples
+        v = v * rng.choice([-1, 1], size=n)
+        if dtype != "int64":
+            v = v + rng.integers(-7, 8, size=n) / 8.0
     return v
 
 
